@@ -49,6 +49,10 @@ let parse_op (s : string) : op =
   | [ "w8"; a; v ] -> OW8 (zx a, zx v)
   | [ "r8"; a ] -> OR8 (zx a)
   | [ "port"; p; v ] -> OPort (zx p, zx v)
+  | [ "w16"; a; v ] -> OWr (z_of_int 2, zx a, zx v)
+  | [ "w32"; a; v ] -> OWr (z_of_int 4, zx a, zx v)
+  | [ "r16"; a ] -> ORd (z_of_int 2, zx a)
+  | [ "r32"; a ] -> ORd (z_of_int 4, zx a)
   | _ -> failwith ("unknown op [" ^ s ^ "]")
 
 type case = {
@@ -131,6 +135,50 @@ let ref_price (c : case) : string * bool =
       c.ops in
   ("res=" ^ String.concat "," rs, !dom)
 
+(* kind=bus: histories of byte / word / long accesses against the abstract map address -> byte *)
+let ref_bus (c : case) : string * bool =
+  let m = ref (fun a -> bus_read c.s0.cbus a) in
+  let m0 = !m in
+  let dom = ref true and stop = ref false in
+  let written = ref [] and ign = ref [] in
+  let rs = ref [] in
+  let bytes_of sz a = List.init sz (fun i -> a + i) in
+  List.iter (fun o ->
+      if not !stop then begin
+        let r =
+          match o with
+          | OW8 (a, v) ->
+            if accessible a && not (plain a) then dom := false;
+            let (m', r) = astep !m (AWrite (a, v)) in
+            m := m'; written := int_of_z a :: !written;
+            (match r with Some _ -> "ok" | None -> "err")
+          | OR8 a ->
+            let (_, r) = astep !m (ARead a) in
+            (match r with Some v -> fmt_res (ROkV v) | None -> "err")
+          | OWr (sz, a, v) ->
+            let n = int_of_z sz and ai = int_of_z a in
+            List.iter (fun x -> if accessible (z_of_int x) && not (plain (z_of_int x)) then dom := false) (bytes_of n ai);
+            let (m', ok) = awrite !m sz a v in
+            m := m'; written := bytes_of n ai @ !written;
+            if ok then "ok" else begin ign := bytes_of n ai @ !ign; "err" end
+          | ORd (sz, a) ->
+            (match aread !m sz a with Some v -> fmt_res (ROkV v) | None -> "err")
+          | _ -> dom := false; "na" in
+        if r = "err" then stop := true;
+        rs := r :: !rs
+      end)
+    c.ops;
+  let addrs = List.sort_uniq compare !written in
+  let md = List.filter_map (fun a ->
+      let za = z_of_int a in
+      match !m za, m0 za with
+      | Some v, Some v0 -> if int_of_z v <> int_of_z v0 then Some (Printf.sprintf "%x:%02x" a (int_of_z v)) else None
+      | _, _ -> None) addrs in
+  let ign = List.sort_uniq compare !ign in
+  let s = Printf.sprintf "res=%s md=%s%s" (String.concat "," (List.rev !rs)) (String.concat ";" md)
+      (if ign = [] then "" else " ignmd=" ^ String.concat "," (List.map (Printf.sprintf "%x") ign)) in
+  (s, !dom)
+
 let () =
   let inp = Sys.argv.(1) and outp = Sys.argv.(2) in
   let ic = open_in inp and oc = open_out outp in
@@ -145,6 +193,9 @@ let () =
           | "price" ->
             let (r, d) = ref_price c in
             Printf.fprintf oc "R id=%s %s\nD id=%s C19=%d\n" c.id r c.id (if d then 1 else 0)
+          | "bus" ->
+            let (r, d) = ref_bus c in
+            Printf.fprintf oc "R id=%s %s\nD id=%s C09=%d\n" c.id r c.id (if d then 1 else 0)
           | _ -> Printf.fprintf oc "R id=%s\nD id=%s\n" c.id c.id)
        end
      done
